@@ -297,3 +297,126 @@ def block_bounds(chk, rule, lib, mods, prefix, block_size=1024, data_param="inpu
             chk.finding(Finding(rule, o.name, name, "block-bounds", "with %d block(s) `%s` reads bytes %d..%d of the input, which has %d bytes" % (nb, i.text.strip(), off, off + size - 1, nb * block_size), loc=o.line_of(key[1], i.addr)))
     chk.extra.setdefault("block_bounds", {})[prefix] = {"functions": n, "input_accesses_checked": nacc}
     return n
+
+
+def update_conservation(chk, rule, mods, name_re, block_re, block_size=1024):
+    """Byte conservation of the multi-hash update functions on the IR skeleton (lib/irskel.py): for a grid of
+    (bytes already carried P, len L) the events of the one path that (P, L) selects are replayed against the
+    stream's bookkeeping: every byte of the caller's buffer is consumed exactly once and in order - copied behind the
+    carried bytes, or handed to the block function in whole blocks; the carried block is hashed exactly when it is
+    full and never with less; at return floor((P+L)/block) blocks have been hashed and (P+L) mod block bytes are
+    carried; total_length grew by L."""
+    import irskel
+    from report import Finding
+    n = ncases = 0
+    for src, M in sorted(mods.items()):
+        for F in M.defined():
+            if not re.match(name_re, F.name):
+                continue
+            ctx_n, buf_n, len_n = F.arg_index("ctx"), F.arg_index("buffer"), F.arg_index("len")
+            if ctx_n is None or buf_n is None or len_n is None:
+                chk.broke("%s: parameters ctx/buffer/len not found" % F.name)
+                continue
+            tl = pb = None
+            for sn, ds in M.distructs.items():
+                names = {m["name"]: m for m in ds["members"]}
+                if "total_length" in names and "partial_block_buffer" in names:
+                    tl = (names["total_length"]["off"], names["total_length"]["size"])
+                    pb = (names["partial_block_buffer"]["off"], names["partial_block_buffer"]["size"])
+            if tl is None:
+                chk.broke("%s: context struct with total_length / partial_block_buffer not found in DWARF" % F.name)
+                continue
+            n += 1
+            bad = None
+            BS = block_size
+            grid = []
+            for P in (0, 1, 500, BS - 1):
+                for L in sorted({1, 2, BS - P - 1, BS - P, BS - P + 1, BS, BS + 1, 2 * BS - P, 2 * BS - P + 1, 3 * BS + 7, 4 * BS}):
+                    if L > 0:
+                        grid.append((P, L))
+            for (P, L) in grid:
+                T0 = 3 * BS + P
+                args = [None] * len(F.args)
+                args[ctx_n] = ("p", "ctx", 0)
+                args[buf_n] = ("p", "in", 0)
+                args[len_n] = L
+
+                def mem_init(tag, off, size, _t=T0):
+                    if tag == "ctx" and off == tl[0] and size == tl[1]:
+                        return _t
+                    return None
+                try:
+                    rr = irskel.run(F, args, mem_init)
+                except irskel.Unknown as e:
+                    chk.broke("%s: IR skeleton not followed for carried = %d, len = %d: %s" % (F.name, P, L, e))
+                    break
+                ncases += 1
+                if bad:
+                    continue
+                fill, consumed, hashed = P, 0, 0
+                newtl = None
+                why = None
+                for ev in rr.events:
+                    if ev[0] == "store":
+                        if ev[1] == "ctx" and ev[2] == tl[0]:
+                            newtl = ev[4]
+                        continue
+                    _, cal, av, I = ev
+                    if cal.startswith(("llvm.memcpy", "memcpy", "__memcpy_chk", "llvm.memmove")):
+                        dst, s_, nb = av[0], av[1], av[2]
+                        if isinstance(s_, tuple) and s_[1] == "in":
+                            if not (isinstance(dst, tuple) and dst[1] == "ctx" and pb[0] <= dst[2] < pb[0] + pb[1]) or not isinstance(nb, int):
+                                why = (I, "bytes of the caller's buffer are copied somewhere other than the carried block")
+                                break
+                            if s_[2] != consumed:
+                                why = (I, "the copy into the carried block starts at byte %d of the caller's buffer, but %d byte(s) have been consumed so far" % (s_[2], consumed))
+                                break
+                            if dst[2] - pb[0] != fill:
+                                why = (I, "the copy lands at offset %d of the carried block, which holds %d byte(s)" % (dst[2] - pb[0], fill))
+                                break
+                            if fill + nb > BS or consumed + nb > L:
+                                why = (I, "the copy of %d byte(s) overruns the carried block (%d held) or the caller's buffer (%d of %d consumed)" % (nb, fill, consumed, L))
+                                break
+                            fill += nb
+                            consumed += nb
+                    elif re.match(block_re, cal):
+                        p0 = av[0]
+                        nblk = [x for x in av if isinstance(x, int)]
+                        nblk = nblk[-1] if nblk else None
+                        if nblk is None or not isinstance(p0, tuple):
+                            why = (I, "block function called with arguments the skeleton does not determine")
+                            break
+                        if p0[1] == "ctx" and p0[2] == pb[0]:
+                            if fill != BS or nblk != 1:
+                                why = (I, "the carried block is hashed while it holds %d of %d bytes (%d block(s) requested)" % (fill, BS, nblk))
+                                break
+                            hashed += 1
+                            fill = 0
+                        elif p0[1] == "in":
+                            if p0[2] != consumed or fill != 0:
+                                why = (I, "blocks are hashed from byte %d of the caller's buffer while %d byte(s) have been consumed and %d are still carried: the stream order is broken" % (p0[2], consumed, fill))
+                                break
+                            if consumed + nblk * BS > L:
+                                why = (I, "%d block(s) are hashed from byte %d of a %d-byte buffer" % (nblk, consumed, L))
+                                break
+                            consumed += nblk * BS
+                            hashed += nblk
+                        else:
+                            why = (I, "block function reads from neither the carried block nor the caller's buffer")
+                            break
+                if why is None:
+                    if consumed != L:
+                        why = (rr.events[-1][-1] if rr.events else F.first(), "%d of the %d byte(s) of the caller's buffer are consumed" % (consumed, L))
+                    elif fill == BS:
+                        why = (rr.events[-1][-1] if rr.events else F.first(), "the call returns with a full carried block that was not hashed; the next call derives %d carried byte(s) from total_length and overwrites it" % ((P + L) % BS))
+                    elif hashed != (P + L) // BS or fill != (P + L) % BS:
+                        why = (rr.events[-1][-1] if rr.events else F.first(), "%d block(s) hashed and %d byte(s) carried at return; %d and %d are due" % (hashed, fill, (P + L) // BS, (P + L) % BS))
+                    elif newtl != T0 + L:
+                        why = (F.first(), "total_length is %s at return, %d is due" % (newtl, T0 + L))
+                if why:
+                    bad = (P, L, why)
+            chk.obligation(rule, bad is None, key=(src, F.name, "conservation"), sample={"unit": src, "function": F.name, "cases": len(grid)})
+            if bad:
+                P, L, (I, msg) = bad
+                chk.finding(Finding(rule, src, F.name, "conservation:carried=%d,len=%d" % (P, L), "with %d byte(s) carried and len = %d: %s" % (P, L, msg), loc=I.loc() if hasattr(I, "loc") else src))
+    return n, ncases
